@@ -70,7 +70,10 @@ tbbtdins(TBBT_TREE *tree, void *item, void *key)
 /* representation invariant (ghost bit g_m): bits beyond bits_used are zero */
 #define BV_TAIL_ZERO(b) (!(g_m >= (b)->bits_used && g_m < 8 * (b)->array_size) || BV_BIT(b, g_m) == 0)
 /* the per-tag record: ref 0 is permanently marked used (HTIregister_tag_ref's "kludge") */
-#define TINFO_WF(t) ((t)->b != NULL && BV_FIELDS_WF((t)->b) && BV_TAIL_ZERO((t)->b) && BV_BIT((t)->b, 0) == 1)
+/* bit 65536 exists only as the "all 65535 refs used" overflow slot and is never set (refs are 16 bit) */
+#define TINFO_WF(t)                                                                                          \
+    ((t)->b != NULL && BV_FIELDS_WF((t)->b) && BV_TAIL_ZERO((t)->b) && BV_BIT((t)->b, 0) == 1 &&                \
+     ((t)->b->bits_used <= 65536 || BV_BIT((t)->b, 65536) == 0))
 #define FREC_BAD (g_frec == NULL || g_frec->refcount == 0)
 #define TAG_KNOWN(tag) (g_tpresent && g_tkey == BASETAG(tag))
 
@@ -211,6 +214,62 @@ uint16 Hnewref(int32 file_id)
     __CPROVER_ensures((!FREC_BAD && __CPROVER_old(g_frec->maxref) == MAX_REF && __CPROVER_return_value == 0) ==>
                       g_nr_used[g_nr_r] != 0)
     __CPROVER_ensures((!FREC_BAD && __CPROVER_old(g_frec->maxref) == MAX_REF) ==> g_frec->maxref == MAX_REF);
+#endif
+
+/* ------------------------------------------------------------------ HTIregister/unregister_tag_ref (C12) */
+int   g_ebit;  /* whether dd_ptr->ref is in use for the tag on entry */
+void *g_rslot; /* ref table slot of the ghost ref g_r on entry (NULL beyond the table) */
+#define DYN_OK(d) ((d)->num_elems >= 1 && (d)->num_elems <= 65536 + REF_DYNARRAY_INCR && (d)->incr_mult == REF_DYNARRAY_INCR && (d)->arr != NULL)
+#define DYN_AT(d, i) ((i) < (d)->num_elems ? (d)->arr[(i)] : (void *)NULL)
+#define REG_ENV(file_rec, dd_ptr)                                                                            \
+    ((file_rec) != NULL && (file_rec) == g_frec && g_tpresent && g_tnode != NULL && g_tinfo != NULL &&          \
+     g_tnode->data == g_tinfo && g_tinfo->tag == g_tkey && TINFO_WF(g_tinfo) && g_tinfo->d != NULL &&           \
+     DYN_OK(g_tinfo->d) && BASETAG((dd_ptr)->tag) == g_tkey && (dd_ptr)->ref >= 1 &&                            \
+     (int)(dd_ptr)->ref < g_tinfo->d->num_elems && g_r >= 1 && g_r <= 65535 && g_m >= 0 &&                      \
+     BV_GETV(g_tinfo->b, g_r) == g_rbit && DYN_AT(g_tinfo->d, g_r) == g_rslot &&                                \
+     BV_GETV(g_tinfo->b, (int32)(dd_ptr)->ref) == g_ebit)
+#ifdef H4V_OB_REGISTER
+/* existing tag, ref inside the current ref table (no table growth: see report) */
+static int HTIregister_tag_ref(filerec_t *file_rec, dd_t *dd_ptr)
+    __CPROVER_requires(__CPROVER_is_fresh(dd_ptr, sizeof(dd_t)) && REG_ENV(file_rec, dd_ptr))
+    __CPROVER_assigns(g_tinfo->b->bits_used, g_tinfo->b->array_size, g_tinfo->b->last_zero, g_tinfo->b->buffer,
+                      __CPROVER_object_whole(g_tinfo->b->buffer), __CPROVER_object_whole(g_tinfo->d->arr))
+    __CPROVER_frees(g_tinfo->b->buffer)
+    __CPROVER_ensures(__CPROVER_return_value == SUCCEED || __CPROVER_return_value == FAIL)
+    /* a tag/ref already in use is refused ... */
+    __CPROVER_ensures(g_ebit == 1 ==> __CPROVER_return_value == FAIL)
+    /* ... and a refusal changes nothing: the ref table of the tag is still there */
+    __CPROVER_ensures(__CPROVER_return_value == FAIL ==>
+                      (g_tinfo->d == __CPROVER_old(g_tinfo->d) && DYN_OK(g_tinfo->d) &&
+                       BV_GETV(g_tinfo->b, (int32)dd_ptr->ref) == g_ebit))
+    /* success: bit and table slot are set together */
+    __CPROVER_ensures(__CPROVER_return_value == SUCCEED ==>
+                      (g_ebit == 0 && BV_GETV(g_tinfo->b, (int32)dd_ptr->ref) == 1 &&
+                       DYN_AT(g_tinfo->d, (int)dd_ptr->ref) == (void *)dd_ptr))
+    /* any other ref of the tag is untouched */
+    __CPROVER_ensures(g_r != dd_ptr->ref ==>
+                      (BV_GETV(g_tinfo->b, g_r) == g_rbit && DYN_AT(g_tinfo->d, g_r) == g_rslot))
+    __CPROVER_ensures(TINFO_WF(g_tinfo));
+#endif
+#ifdef H4V_OB_UNREGISTER
+static int HTIunregister_tag_ref(filerec_t *file_rec, dd_t *dd_ptr)
+    __CPROVER_requires(__CPROVER_is_fresh(dd_ptr, sizeof(dd_t)) && REG_ENV(file_rec, dd_ptr))
+    /* directory coherence for the DD being removed: a used ref has its DD in the table */
+    __CPROVER_requires(g_ebit == 0 || DYN_AT(g_tinfo->d, (int)dd_ptr->ref) == (void *)dd_ptr)
+    __CPROVER_assigns(dd_ptr->tag, g_tinfo->b->bits_used, g_tinfo->b->array_size, g_tinfo->b->last_zero, g_tinfo->b->buffer,
+                      __CPROVER_object_whole(g_tinfo->b->buffer), __CPROVER_object_whole(g_tinfo->d->arr))
+    __CPROVER_frees(g_tinfo->b->buffer)
+    __CPROVER_ensures(__CPROVER_return_value == SUCCEED || __CPROVER_return_value == FAIL)
+    __CPROVER_ensures((__CPROVER_return_value == SUCCEED) == (g_ebit == 1))
+    /* bit and table slot are cleared together and the DD becomes an empty slot */
+    __CPROVER_ensures(__CPROVER_return_value == SUCCEED ==>
+                      (BV_GETV(g_tinfo->b, (int32)dd_ptr->ref) == 0 && DYN_AT(g_tinfo->d, (int)dd_ptr->ref) == NULL &&
+                       dd_ptr->tag == DFTAG_NULL))
+    __CPROVER_ensures(__CPROVER_return_value == FAIL ==> dd_ptr->tag == __CPROVER_old(dd_ptr->tag))
+    __CPROVER_ensures(dd_ptr->ref == __CPROVER_old(dd_ptr->ref))
+    __CPROVER_ensures(g_r != dd_ptr->ref ==>
+                      (BV_GETV(g_tinfo->b, g_r) == g_rbit && DYN_AT(g_tinfo->d, g_r) == g_rslot))
+    __CPROVER_ensures(TINFO_WF(g_tinfo));
 #endif
 
 #ifdef H4V_NATIVE
@@ -412,13 +471,14 @@ mk_coherent_tree(filerec_t *f, uint16 look_tag, uint16 look_ref)
     g_tkey       = BASETAG(look_tag);
     g_tinfo->tag = g_tkey;
     H4V_ASSUME(g_tpresent || !tagseen);
+    /* ref table of constant size (64 = REF_DYNARRAY_START or 256 slots: part of the bound) */
     dynarr_t *d = malloc(sizeof(dynarr_t));
     H4V_ASSUME(d != NULL);
-    H4V_ND(int, da_num_elems);
-    H4V_ASSUME(da_num_elems >= 1 && da_num_elems <= 65536 + REF_DYNARRAY_INCR);
+    H4V_ND(int, da_big);
+    int da_num_elems = da_big ? 256 : 64;
     d->num_elems = da_num_elems;
     d->incr_mult = REF_DYNARRAY_INCR;
-    d->arr       = malloc((size_t)da_num_elems * sizeof(void *));
+    d->arr       = da_big ? malloc(256 * sizeof(void *)) : malloc(64 * sizeof(void *));
     H4V_ASSUME(d->arr != NULL);
     H4V_ASSUME(hit == NULL || look_ref < da_num_elems);
     if (look_ref < da_num_elems)
@@ -445,7 +505,13 @@ h_find_dd(void)
 #ifdef H4V_DIRECTION
     H4V_ASSUME(direction == H4V_DIRECTION);
 #endif
-    mk_coherent_tree(f, look_tag, look_ref);
+#ifdef H4V_EXACT /* 1: only the exact (tag, ref) shape; 0: only the wildcard shapes */
+    H4V_ASSUME(WILD_SHAPE(look_tag, look_ref) == !H4V_EXACT);
+#endif
+    if (!WILD_SHAPE(look_tag, look_ref))
+        mk_coherent_tree(f, look_tag, look_ref);
+    else
+        g_tpresent = 0;
     g_pdd0 = from_start ? NULL : pick_dd(f, start_blk, start_idx);
     g_dd   = pick_dd(f, ghost_blk, ghost_idx);
     g_startpos = g_pdd0 == NULL ? (FWD(direction) ? -1 : 1000) : DD_POS(f, g_pdd0);
@@ -453,14 +519,18 @@ h_find_dd(void)
     H4V_ASSUME(pdd != NULL);
     *pdd  = g_pdd0;
     int r = HTIfind_dd(f, look_tag, look_ref, pdd, direction);
+#if !defined(H4V_EXACT) || H4V_EXACT == 0
     H4V_COVER(r == SUCCEED && look_tag == DFTAG_WILDCARD && look_ref == DFREF_WILDCARD && g_pdd0 != NULL &&
                   (*pdd)->blk != g_pdd0->blk, "HTIfind_dd both wildcards, crosses into the other block");
     H4V_COVER(r == SUCCEED && look_tag == DFTAG_WILDCARD && look_ref != DFREF_WILDCARD, "HTIfind_dd tag wildcard");
     H4V_COVER(r == SUCCEED && look_tag != DFTAG_WILDCARD && look_ref == DFREF_WILDCARD && (*pdd)->tag != look_tag,
               "HTIfind_dd ref wildcard finds the special variant");
+    H4V_COVER(r == FAIL && WILD_SHAPE(look_tag, look_ref) && g_pdd0 != NULL, "HTIfind_dd enumeration ends");
+#endif
+#if !defined(H4V_EXACT) || H4V_EXACT == 1
     H4V_COVER(r == SUCCEED && !WILD_SHAPE(look_tag, look_ref), "HTIfind_dd exact pair found");
     H4V_COVER(r == FAIL && !WILD_SHAPE(look_tag, look_ref), "HTIfind_dd exact pair absent");
-    H4V_COVER(r == FAIL && WILD_SHAPE(look_tag, look_ref) && g_pdd0 != NULL, "HTIfind_dd enumeration ends");
+#endif
     H4V_CANARY("HTIfind_dd end");
 }
 #endif
@@ -506,5 +576,50 @@ h_newref(void)
     H4V_COVER(r == 65535 && m0 == MAX_REF, "Hnewref search finds only the last ref free");
     H4V_COVER(r == 0 && !FREC_BAD, "Hnewref exhausted");
     H4V_CANARY("Hnewref end");
+}
+#endif
+
+#if defined(H4V_OB_REGISTER) || defined(H4V_OB_UNREGISTER)
+void
+h_register(void)
+{
+    filerec_t *f = mk_frec();
+    mk_tinfo();
+    g_tpresent = 1;
+    H4V_ASSUME(g_r >= 1 && g_r <= 65535 && g_m >= 0);
+    dynarr_t *d = malloc(sizeof(dynarr_t));
+    H4V_ASSUME(d != NULL);
+    H4V_ND(int, da_num_elems);
+    H4V_ASSUME(da_num_elems >= 1 && da_num_elems <= 65536 + REF_DYNARRAY_INCR);
+    d->num_elems = da_num_elems;
+    d->incr_mult = REF_DYNARRAY_INCR;
+    d->arr       = malloc((size_t)da_num_elems * sizeof(void *));
+    H4V_ASSUME(d->arr != NULL);
+    g_tinfo->d = d;
+    dd_t *dd = malloc(sizeof(dd_t));
+    H4V_ASSUME(dd != NULL);
+    H4V_ND(uint16, dd_tag);
+    H4V_ND(uint16, dd_ref);
+    H4V_ASSUME(BASETAG(dd_tag) == g_tkey && dd_ref >= 1 && dd_ref < da_num_elems);
+    dd->tag    = dd_tag;
+    dd->ref    = dd_ref;
+    dd->offset = 0;
+    dd->length = 0;
+    dd->blk    = NULL;
+    H4V_ASSUME(BV_FIELDS_WF(g_tinfo->b));
+    g_rbit  = BV_GETV(g_tinfo->b, g_r);
+    g_ebit  = BV_GETV(g_tinfo->b, (int32)dd_ref);
+    g_rslot = DYN_AT(d, g_r);
+#ifdef H4V_OB_REGISTER
+    int r = HTIregister_tag_ref(f, dd);
+    H4V_COVER(r == SUCCEED, "HTIregister_tag_ref registers");
+    H4V_COVER(r == FAIL && g_ebit == 1, "HTIregister_tag_ref refuses a duplicate");
+#else
+    H4V_ASSUME(g_ebit == 0 || d->arr[dd_ref] == (void *)dd);
+    int r = HTIunregister_tag_ref(f, dd);
+    H4V_COVER(r == SUCCEED, "HTIunregister_tag_ref unregisters");
+    H4V_COVER(r == FAIL, "HTIunregister_tag_ref refuses an unused ref");
+#endif
+    H4V_CANARY("HTI(un)register_tag_ref end");
 }
 #endif
